@@ -348,6 +348,32 @@ def assert_binding_live(run, trace_module, cfg, trace, corrupt, what):
 # --------------------------------------------------------------------------
 # known findings
 # --------------------------------------------------------------------------
+LAYOUTS = ("contig", "strided", "fortran", "bigendian", "negstride")
+
+
+def relayout(x, kind):
+    """The same array values in another memory layout (numpy arrays are legal arguments in any of them):
+    a view with stride 2 on every axis, Fortran order, the opposite byte order, negative strides."""
+    import numpy as np
+    if kind == "contig":
+        return np.ascontiguousarray(x).copy()
+    if kind == "strided":
+        big = np.zeros(tuple(2 * s for s in x.shape), dtype=x.dtype)
+        sl = tuple(slice(None, None, 2) for _ in x.shape)
+        big[sl] = x
+        return big[sl]
+    if kind == "fortran":
+        return np.asfortranarray(x).copy(order="F")
+    if kind == "bigendian":
+        if x.dtype.itemsize == 1:
+            return x.copy()
+        return x.astype(x.dtype.newbyteorder(">" if x.dtype.byteorder in ("=", "<", "|") else "<"))
+    if kind == "negstride":
+        sl = tuple(slice(None, None, -1) for _ in x.shape)
+        return np.ascontiguousarray(x[sl])[sl]
+    raise ValueError(kind)
+
+
 def load_known():
     out = []
     if os.path.exists(KNOWN):
